@@ -535,6 +535,10 @@ class Interp:
     def s_For(self, st, env):
         it = self.eval(st.iter, env)
         seq = self.ops.iterate(it, st.iter, env)  # ("concrete", [vals]) | ("abstract", elem, info)
+        if seq[0] != "concrete" and self.join_depth == 0 and self._range_known_empty(it):
+            # `range(c)` where this path already decided `c > 0` to be false: zero iterations
+            self.event("decision", st, test=f"{norm_text(st.iter)} is empty", outcome=True, forced=True, compares=[])
+            seq = ("concrete", [])
         if seq[0] == "concrete":
             outs: dict = {}
             cur = env
@@ -573,6 +577,16 @@ class Interp:
             return outs
         _, elem, info = seq
         return self._abstract_loop(st, env, elem, info)
+
+    def _range_known_empty(self, it) -> bool:
+        from .values import ListV, TV
+
+        if not (isinstance(it, ListV) and it.items is None and it.order and it.order[0] and it.order[0][0] == "range"):
+            return False
+        ln = it.length
+        if not (isinstance(ln, TV) and ln.poly is not None):
+            return False
+        return self.trace.decided.get(f"Gt:{ln.poly!r}") is False
 
     def s_While(self, st, env):
         return self._abstract_loop(st, env, None, {"while": True})
